@@ -245,7 +245,15 @@ fn op(s: &mut Sess, b: &mut Batch<'_>, depth: usize) {
 		// ---- tips
 		0 | 1 => {
 			let slot = s.prng.below(4);
-			let uid = s.next_uid();
+			// one time in four: the COMMITTED value again (a head moved away and back inside one batch); values are
+			// otherwise unique, so nothing would ever write what is already on disk
+			let uid = match (s.prng.chance(1, 4), s.m.committed(&(0, slot))) {
+				(true, Some(Val::Tip(u))) => {
+					s.inc("ops.save_tip_with_the_committed_value");
+					u
+				}
+				_ => s.next_uid(),
+			};
 			let t = tip_of(uid);
 			let r = match slot {
 				0 => b.save_body_head(&t),
